@@ -32,6 +32,8 @@ def check_valid(post, case, clause, *, eps=0.0, mask=None, tol=None):
     require(np.shape(post) == exp_shape, f'{clause}-shape',
             f'{np.shape(post)} != {exp_shape}', kind=case.kind)
     post = np.asarray(post)
+    if post.size == 0:
+        return      # e.g. a mask that switches every source off in every frame
     require(np.all(np.isfinite(post)), f'{clause}-finite',
             f'{int(np.sum(~np.isfinite(post)))} non-finite values',
             kind=case.kind)
